@@ -6,6 +6,10 @@
 // Line kinds (B = "B minx miny maxx maxy", coordinates are IEEE bit patterns in hex):
 //
 //	geom <G>          Len(), Points() drained Len() times (two interleaved iterators), Bounds()
+//	                  + history probe: the returned boxes are mutated by the caller, Bounds() is asked again
+//	hist <G> | <P>... G.Bounds() is mutated by the caller (Extend by a far box, writes to Min/Max); then
+//	                  Bounds() of G and every P, twice (mutating all results in between). One impl
+//	                  process serves all lines, so package-level state leaks across lines, too.
 //	ext  <B> <B|NIL>  b1.Copy().Extend(b2)
 //	ext3 <B> <B> <B>  (a+b)+c , a+(b+c) , b+a , a+a
 //	ovl  <B> <B>      a.Overlaps(b) and b.Overlaps(a)
@@ -337,8 +341,38 @@ func gen(seed uint64, tier string) {
 	for _, g := range corpus() {
 		fmt.Fprintf(out, "geom %s\n", vproto.GeomToks(g))
 	}
+	// history lines: Bounds() of a geometry is mutated by the caller, then Bounds() of it and of other
+	// geometries (always some without vertices, and some with vertex-less members) is asked
+	empties := []geom.Geom{geom.LineString{}, geom.Polygon{}, geom.MultiPoint{}, geom.MultiLineString{{}}, geom.MultiLineString{},
+		geom.Polygon{{}}, geom.MultiPolygon{}, geom.MultiPolygon{{}}, geom.GeometryCollection{}, geom.GeometryCollection{geom.LineString{}},
+		geom.GeometryCollection{geom.Polygon{}, geom.GeometryCollection{geom.MultiPoint{}}}}
+	withEmptyMember := []geom.Geom{
+		geom.MultiLineString{{}, {P(10, 10), P(11, 12)}, {}},
+		geom.MultiPolygon{{}, {{P(10, 10), P(11, 12)}}, {{}}},
+		geom.GeometryCollection{geom.LineString{}, P(3, 4), geom.Polygon{}},
+		geom.GeometryCollection{geom.GeometryCollection{geom.Polygon{}}, geom.MultiPoint{P(1, 2), P(-1, 5)}, geom.MultiPoint{}},
+		geom.Polygon{{}, {P(1, 1), P(2, 3)}},
+	}
+	hist := func(gs ...geom.Geom) {
+		var t []string
+		for _, g := range gs {
+			t = append(t, vproto.GeomToks(g))
+		}
+		fmt.Fprintf(out, "hist %s\n", strings.Join(t, " | "))
+	}
+	for _, e := range empties {
+		hist(e, withEmptyMember[0], e, geom.LineString{P(1, 2), P(3, 4)})
+		hist(geom.LineString{P(-1, -2), P(3, 4)}, e, withEmptyMember[1])
+	}
 	for i := 0; i < nGeom; i++ {
-		fmt.Fprintf(out, "geom %s\n", vproto.GeomToks(genGeom(r, 4, true)))
+		g := genGeom(r, 4, true)
+		fmt.Fprintf(out, "geom %s\n", vproto.GeomToks(g))
+		if i%8 == 0 {
+			hist(genGeom(r, 3, false), empties[r.Intn(len(empties))], withEmptyMember[r.Intn(len(withEmptyMember))], genGeom(r, 3, false))
+		}
+		if i%500 == 0 {
+			fmt.Fprintln(out, "new")
+		}
 	}
 	// box catalogue: every pair of 1-D intervals (lo,hi) over a small value set (includes inverted =
 	// empty intervals, touching, nested, identical, degenerate) on one axis, a random interval pair on the other
@@ -414,6 +448,28 @@ func polyRes(p geom.Polygonal) string {
 	return fmt.Sprintf("other(%T)", p)
 }
 
+// poison mutates a box the way a caller may: the accumulate idiom b.Extend(far-away box), then plain
+// writes to Min/Max. A box returned by the library belongs to the caller; nothing the library
+// returns later may depend on what the caller did to an earlier result.
+func poison(b *geom.Bounds) {
+	if b == nil {
+		return
+	}
+	vproto.Safe(func() {
+		b.Extend(&geom.Bounds{Min: P(-1e6, -2e6), Max: P(-5e5, -1e6)})
+		b.Min = P(-123456, -123457)
+		b.Max = P(123458, 123459)
+	})
+}
+
+func safeBounds(g geom.Geom) string {
+	var b *geom.Bounds
+	if pan := vproto.Safe(func() { b = g.Bounds() }); pan != "" {
+		return "panic"
+	}
+	return boxRes(b)
+}
+
 func runGeom(g geom.Geom) string {
 	before := vproto.GeomToks(g)
 	var res strings.Builder
@@ -472,6 +528,13 @@ func runGeom(g geom.Geom) string {
 			same = 0
 		}
 		fmt.Fprintf(&res, " again %d", same)
+		// history probe: the caller mutates the boxes it was given, then asks again. (A *Bounds
+		// returns itself by design, so its own result is left alone.)
+		if _, isBox := g.(*geom.Bounds); !isBox {
+			poison(b)
+			poison(b2)
+		}
+		res.WriteString(" hist " + safeBounds(g))
 	}
 	mut := 0
 	if vproto.GeomToks(g) != before {
@@ -496,10 +559,39 @@ func runLine(line string) (res string) {
 		switch kind {
 		case "geom":
 			res = runGeom(p.Geom())
+		case "hist":
+			// hist G | P1 | P2 ...: take G.Bounds(), mutate it, then report Bounds() of G and of the others
+			var gs []geom.Geom
+			gs = append(gs, p.Geom())
+			for !p.Done() && p.Peek() == "|" {
+				p.Next()
+				gs = append(gs, p.Geom())
+			}
+			var b0 *geom.Bounds
+			vproto.Safe(func() { b0 = gs[0].Bounds() })
+			if _, isBox := gs[0].(*geom.Bounds); !isBox {
+				poison(b0)
+			}
+			var parts []string
+			for _, g := range gs {
+				parts = append(parts, safeBounds(g))
+			}
+			// and once more after mutating every box just returned
+			for _, g := range gs {
+				if _, isBox := g.(*geom.Bounds); !isBox {
+					vproto.Safe(func() { poison(g.Bounds()) })
+				}
+			}
+			for _, g := range gs {
+				parts = append(parts, safeBounds(g))
+			}
+			res = strings.Join(parts, " ")
 		case "new":
+			poison(geom.NewBounds())
 			res = boxRes(geom.NewBounds())
 		case "nbp":
 			pt := p.Pt()
+			poison(geom.NewBoundsPoint(pt))
 			res = boxRes(geom.NewBoundsPoint(pt))
 		case "ext":
 			a, b := parseBox(p), parseBox(p)
@@ -533,6 +625,12 @@ func runLine(line string) (res string) {
 		case "int":
 			a, b := parseBox(p), parseBox(p)
 			A, B := boxToks(a), boxToks(b)
+			// a first result is mutated by the caller (unless it is one of the operands), then asked again
+			for _, r0 := range []geom.Polygonal{a.Intersection(b), b.Intersection(a)} {
+				if bb, ok := r0.(*geom.Bounds); ok && bb != a && bb != b {
+					poison(bb)
+				}
+			}
 			r1 := a.Intersection(b)
 			r2 := b.Intersection(a)
 			res = polyRes(r1) + " " + polyRes(r2)
@@ -545,6 +643,9 @@ func runLine(line string) (res string) {
 			}
 		case "copy":
 			a := parseBox(p)
+			if c0 := a.Copy(); c0 != a {
+				poison(c0)
+			}
 			c := a.Copy()
 			res = boxRes(c)
 			alias := 0
